@@ -170,7 +170,12 @@ def _pick(variant, mtime_fails, unreachable):
              "forall(i, 0 <= i < len(fs_listing), not fs_listing[i].endswith('.json')))"),
         ],
         raises={"ValueError": BAD_SNAP}, timeout_ms=8000,
+        # the `*.json` filter of the listing is transferred as an explicit fact (cut point after the second binding of
+        # `names`, then a loop invariant): the loop's own re-test of endswith('.json') is redundant, and a proof that
+        # leans on it breaks when someone removes it
+        asserts={"names@2": ["forall(i, 0 <= i < len(names), names[i].endswith('.json'))"]},
         loops={0: {"inv": [
+            "forall(i, 0 <= i < len(_iter), _iter[i].endswith('.json'))",
             "forall(j, 0 <= j < len(numbered), exists(i, 0 <= i < _i, is_snap(_iter[i]) and "
             " numbered[j][1] == path_join(directory, _iter[i]) and numbered[j][0] == snap_no(_iter[i])))",
         ]}},
